@@ -572,7 +572,40 @@ func (c *Ctx) c16Immutable() {
 		if move != nil {
 			pos = c.ipos(move)
 		}
-		c.check(good, "Y3", fname(store)+"/publish", pos, "rename after the verified transfer, marker stripped", why)
+		if good {
+			// no successful return after the transfer without the rename, unless the uploaded name carries no marker
+			isPartTest := func(v ssa.Value) bool {
+				cl, ok := v.(*ssa.Call)
+				if !ok || calleeFull(&cl.Call) != "strings.EqualFold" && calleeFull(&cl.Call) != "strings.HasSuffix" {
+					return false
+				}
+				for _, a := range cl.Call.Args {
+					if s2, ok := constString(a); ok && s2 == ".part" {
+						return true
+					}
+				}
+				return false
+			}
+			prune := func(b *ssa.BasicBlock, k int) bool {
+				ifi, ok := b.Instrs[len(b.Instrs)-1].(*ssa.If)
+				if !ok {
+					return false
+				}
+				v, ts := boolTest(ifi)
+				if isPartTest(v) {
+					return k != ts // the side without the marker needs no rename
+				}
+				if x, nilSucc, ok := nilTest(ifi); ok && sameValue(x, errResultsOf(transfer)[0]) {
+					return k != nilSucc
+				}
+				return false
+			}
+			esc := pathPruned(store, transfer, func(in ssa.Instruction) bool { return in == ssa.Instruction(move) }, func(in ssa.Instruction) bool { return isReturnOK(store, in) }, prune)
+			if esc != nil {
+				good, why = false, "Store can report success at "+c.ipos(esc)+" with the archive still under its '.part' name: readers skip it, so the version just stored is never the one Fetch returns"
+			}
+		}
+		c.check(good, "Y3", fname(store)+"/publish", pos, "rename after the verified transfer on every successful path, marker stripped", why)
 	}
 	// Y4 who-may-list
 	lister := c.fn(scPkg, "listCompleteFilesByModTime")
